@@ -256,16 +256,16 @@ func c15decode(b []byte) c15res {
 }
 
 type c15ctor struct {
-	Kind   int     `json:"kind"` // 16 | 32 | 64
-	Dims   []int   `json:"dims"`
-	N      int     `json:"n"` // values
-	Off    int     `json:"off"`
-	Seq    uint32  `json:"seq"`
-	Src    uint32  `json:"src"`
-	Ver    int     `json:"ver"`
-	Ops    []string `json:"ops"` // after NewData: settime | resettime | cleardata | newdata
-	TS     uint64  `json:"ts"`
-	Rate   float64 `json:"rate"` // timestamp rate handed to SetTimestamp
+	Kind int      `json:"kind"` // 16 | 32 | 64
+	Dims []int    `json:"dims"`
+	N    int      `json:"n"` // values
+	Off  int      `json:"off"`
+	Seq  uint32   `json:"seq"`
+	Src  uint32   `json:"src"`
+	Ver  int      `json:"ver"`
+	Ops  []string `json:"ops"` // after NewData: settime | resettime | cleardata | newdata
+	TS   uint64   `json:"ts"`
+	Rate float64  `json:"rate"` // timestamp rate handed to SetTimestamp
 }
 
 func c15roundtrip(c c15ctor, rng *rand.Rand) (res c15res) {
@@ -379,8 +379,26 @@ func c15roundtrip(c c15ctor, rng *rand.Rand) (res c15res) {
 	if p.timestamp != nil && q.timestamp != nil {
 		tsSame = p.timestamp.T == q.timestamp.T
 	}
-	res["rt"] = map[string]bool{"version": p.version == q.version, "source": p.sourceID == q.sourceID, "seq": p.sequenceNumber == q.sequenceNumber,
+	rt := map[string]bool{"version": p.version == q.version, "source": p.sourceID == q.sourceID, "seq": p.sequenceNumber == q.sequenceNumber,
 		"offset": p.offset == q.offset, "shape": shapeSame, "payload": same, "timestamp": tsSame, "length": len(b) == p.Length()}
+	// the encoding is a value: bytes handed out must not change when the same packet (or a filler copied from it) is
+	// encoded again later (a sender holds a datagram while the generator builds the next one)
+	held := append([]byte{}, b...)
+	func() {
+		defer func() { recover() }()
+		nch := 1
+		if p.shape != nil {
+			nch, _ = p.ChannelInfo()
+		}
+		if f := p.MakePretendPacket(p.sequenceNumber+7, nch); f != nil {
+			_ = f.Bytes()
+		}
+		p.SetTimestamp(&PacketTimestamp{T: c.TS + 12345, Rate: 1e8})
+		_ = p.Bytes()
+	}()
+	heldSame := bytes.Equal(held, b)
+	rt["held"] = heldSame
+	res["rt"] = rt
 	res["hasts"], res["hasdata"] = hasTS, hasData
 	return res
 }
